@@ -2,6 +2,7 @@ package streams
 
 import (
 	"math"
+	"sort"
 	"strings"
 
 	"go.mongodb.org/mongo-driver/bson"
@@ -222,7 +223,27 @@ func init() {
 					doc = append(bson.D{{Key: "_id", Value: id}}, doc...)
 				}
 			}
+			if r.P(25) && len(doc) > 0 {
+				// sibling fields whose names are textual (not dotted) prefixes of each other: a / ax / a1, also one level down
+				doc = append(bson.D{}, doc...)
+				e := doc[r.N(len(doc))]
+				if e.Key != "_id" {
+					doc = append(doc, bson.E{Key: e.Key + []string{"x", "1", "_"}[r.N(3)], Value: r.Value(1, false)})
+				}
+				for i, f := range doc {
+					if sub, ok := f.Value.(bson.D); ok && len(sub) > 0 && r.P(60) {
+						sub = append(bson.D{}, sub...)
+						sub = append(sub, bson.E{Key: sub[r.N(len(sub))].Key + "x", Value: r.Scalar()})
+						doc[i].Value = sub
+						break
+					}
+				}
+			}
 			proj := Projection(r, doc, malformed)
+			if r.P(10) && len(proj) >= 2 {
+				// shorter name first
+				sort.SliceStable(proj, func(i, j int) bool { return len(proj[i].Key) < len(proj[j].Key) })
+			}
 			req := `{"op":"project","d":` + vj.Enc(doc) + `,"p":` + vj.Enc(proj) + `}`
 			stored := bsonkit.Clone(&doc)
 			before := vj.Enc(*stored)
